@@ -80,7 +80,10 @@ func repoContexts() (plain []string, chainSep []string) {
 func runCase(c chainsim.Case, rep chainsim.Reporter, scratch string) {
 	am := &chainsim.AuthMonitor{Rep: rep}
 	rec := &chainsim.Recorder{TxSubs: []chainsim.TxMonitor{am}}
-	h, err := chainsim.NewHistory(chainsim.HistoryConfig{Seed: c.Seed, Profile: c.Profile, Blocks: c.Blocks}, rec)
+	// One test replica takes the proposer / validator / round-change paths, so altered copies of
+	// its own proposals are also offered to the proposer (ProcessProposal after PrepareProposal).
+	h, err := chainsim.NewHistory(chainsim.HistoryConfig{Seed: c.Seed, Profile: c.Profile, Blocks: c.Blocks, Paths: true,
+		Replicas: []chainsim.ReplicaConfig{{Name: "p0", Backend: "pathbadger"}}}, rec)
 	if err != nil {
 		rep.Inconclusive("setup failed: " + err.Error())
 		return
@@ -189,6 +192,12 @@ func runCase(c chainsim.Case, rep chainsim.Reporter, scratch string) {
 	for k, v := range am.ByIntent {
 		rep.Count("intent."+k+".took_effect", int64(v[0]))
 		rep.Count("intent."+k+".no_effect", int64(v[1]))
+	}
+	rep.Count("tampered_own_proposals_offered", int64(h.TamperedProposals))
+	for _, d := range h.Divergences {
+		if d.What == "tampered-own-proposal-accepted" {
+			rep.Violation("c09/altered-transaction-accepted/proposer-process-proposal", fmt.Sprintf("%+v", *d), map[string]any{"params": h.Sc.P, "height": d.Height})
+		}
 	}
 	for _, p := range h.Panics {
 		rep.Inconclusive("history ended by a panic (see C10): " + p.Error())
